@@ -78,6 +78,12 @@ def src_hash(mod, names):
 
 
 # ---------------------------------------------------------------------- symbolic inputs
+def set_exhaustive(nbits):
+    """number of input bits up to which the encoder keeps complete truth tables (see bdag.RandomEvaluator); must be
+    called before the job creates its variables. Only the encoder's pruning uses the tables, never a verdict."""
+    type(E.rand).EXHAUSTIVE = nbits
+
+
 def choice(vals, tag):
     """a value that is exactly one of vals (one-hot chain of len(vals)-1 fresh variables)"""
     d = E.dag
